@@ -32,6 +32,7 @@ WellFormed(fam, x) ==
     /\ (x.rounds = NoCost) = ~fam.hasRounds
     /\ (x.rounds = Implicit => fam.elided # NoCost)
     /\ (x.form = "uphex" => fam.hexnorm) /\ (x.form = "dirtypad" => fam.padrepair)
+    /\ (x.form = "altb64" => fam.altb64)      \* "adapted base64" fields written with '+' for '.': both alphabets are documented as read
     /\ (x.form = "explicit" <=> (fam.elided # NoCost /\ x.rounds = fam.elided))
     /\ (x.salt = "none") = ~fam.hasSalt
 \* (the written-out default cost is a distinct valid spelling and is kept as it is; only hex case and
